@@ -35,6 +35,12 @@ func cases(tier string) int {
 	return nUBlocks + 16 + 300 + 400
 }
 
+func init() {
+	// the conversions are between instants: they must not depend on the process's time zone
+	// (CI and this sandbox run in UTC, where a zone-dependent epoch goes unnoticed)
+	time.Local = time.FixedZone("verif+0530", 5*3600+1800)
+}
+
 func TestCheck(t *testing.T) {
 	vf.Main(t, vf.Spec{Prop: "C20", Cases: cases, Run: run})
 }
